@@ -191,11 +191,13 @@ def fista_step(c, form='function', adaptive=True):
 # ---------------------------------------------------------------------------------------------
 # Levenberg-Marquardt: invariant r = A(x), J = jac(x), g = J^T r on the cut loop; exit through the gradient criterion
 # ---------------------------------------------------------------------------------------------
-def lm_loop(c, m=2, n=2):
+def lm_loop(c, m=2, n=2, sparse=False):
     A = lambda v: np.array([c.uf(f'res{i}', *list(v)) for i in range(m)], dtype=object if c.sym else float)
     Jf = lambda v: np.array([[c.uf(f'jac{i}{j}', *list(v)) for j in range(n)] for i in range(m)], dtype=object if c.sym else float)
     x0 = c.vec('x0', n); gradtol = c.real('gradtol', lo=0, hi=1)
-    s = S.LM(A, x0, Jf, maxit=10 ** 6, gradtol=gradtol, nu0=1e-3, sparse=False)
+    if sparse:
+        Jd = Jf; Jf = (lambda v: shims.STag(Jd(v), 'csr')) if c.sym else (lambda v: __import__('scipy.sparse', fromlist=['x']).csr_matrix(Jd(v)))
+    s = S.LM(A, x0, Jf, maxit=10 ** 6, gradtol=gradtol, nu0=1e-3, sparse=sparse)
     pre, cond, body, post, names, info = loops.split_loop(S.LM.solve, 0)
     tag, st = pre({'self': s})
     c.eq('init_r_is_residual_at_x0', st['r'], A(x0)); c.eq('init_J_is_jacobian_at_x0', st['J'], Jf(x0))
@@ -293,6 +295,7 @@ def jobs(tier):
         J.append(Job(f'PCGLS.solve:loop0:{form}', lambda c, form=form: cgls_step(c, form, True), 'Pinf', F('PCGLS.solve', 'PCGLS._apply_A', 'PCGLS._apply_Pinv'), _extra))
         for ad in (True, False):
             J.append(Job(f'FISTA.solve:loop0:{form}:adaptive={ad}', lambda c, form=form, ad=ad: fista_step(c, form, ad), 'Pinf', F('FISTA.solve'), _extra))
+    J.append(Job('LM.solve:loop0:invariant_and_exit:m=2:n=1:sparse', lambda c: lm_loop(c, 2, 1, True), 'B', F('LM.solve', 'LM.__init__'), rtol=1e-5, nnum=12))   # sparse branch (spsolve, sparse identity): native only
     for (m_, n_) in ((2, 1),) if tier == 'quick' else ((2, 1), (1, 2), (2, 2)):
         J.append(Job(f'LM.solve:loop0:invariant_and_exit:m={m_}:n={n_}', lambda c, m_=m_, n_=n_: lm_loop(c, m_, n_), 'Pbox', F('LM.solve', 'LM.__init__'), _extra, maxpaths=2048, timeout=1500, rtol=1e-5))
     for w in ('minimize', 'maximize', 'L_BFGS_B', 'LS'):
